@@ -379,3 +379,91 @@ func ruleV7(r *Run) {
 		}
 	}
 }
+
+// G19 (C08): reflect.ValueOf(nil interface) is the zero reflect.Value; a MakeFunc closure that
+// returns it, or a Call that receives it, panics.
+func init() {
+	register("G19", "a reflect.Value that is stored into a []reflect.Value (the results of a reflect.MakeFunc closure, the arguments of a Call) is not reflect.ValueOf of an interface-typed value that may be nil, unless a dominating test excludes nil: a nil result (a function returning a nil interface{}, a null on the wire) otherwise panics the caller's proxy function", 1, ruleG19)
+}
+
+func ruleG19(r *Run) {
+	p := r.P
+	n := 0
+	for _, pkg := range p.Pkgs {
+		if !strings.HasPrefix(p.RelPkg(pkg.Types), "rpc") {
+			continue
+		}
+		info := pkg.TypesInfo
+		for _, file := range pkg.Syntax {
+			for _, d := range file.Decls {
+				fd, ok := d.(*ast.FuncDecl)
+				if !ok || fd.Body == nil {
+					continue
+				}
+				parents := parentMap(fd.Body)
+				perFn := 0
+				ast.Inspect(fd.Body, func(m ast.Node) bool {
+					call, ok := m.(*ast.CallExpr)
+					if !ok || len(call.Args) != 1 {
+						return true
+					}
+					f := Callee(info, call)
+					if f == nil || FullName(f) != "reflect.ValueOf" {
+						return true
+					}
+					at, ok := info.Types[call.Args[0]]
+					if !ok {
+						return true
+					}
+					it, isIface := at.Type.Underlying().(*types.Interface)
+					if !isIface || it.NumMethods() != 0 {
+						return true // a concrete value, or a typed interface the code never leaves nil (context.Context)
+					}
+					// where does the Value go: an element of a []reflect.Value, or the function's result
+					sink := ""
+					switch x := parents[call].(type) {
+					case *ast.AssignStmt:
+						if len(x.Lhs) == 1 {
+							if ie, ok := ast.Unparen(x.Lhs[0]).(*ast.IndexExpr); ok {
+								if tv, ok := info.Types[ie.X]; ok && tv.Type.String() == "[]reflect.Value" {
+									sink = "stored into the reflect.Value list"
+								}
+							}
+						}
+					case *ast.ReturnStmt:
+						sink = "returned as the boxed value"
+					case *ast.CompositeLit:
+						if tv, ok := info.Types[x]; ok && tv.Type.String() == "[]reflect.Value" {
+							sink = "placed in the reflect.Value list"
+						}
+					}
+					if sink == "" {
+						return true
+					}
+					n++
+					perFn++
+					key := fmt.Sprintf("possibly-nil value boxed for reflection in %s #%d", p.DeclName(fd), perFn)
+					argS := types.ExprString(ast.Unparen(call.Args[0]))
+					guard := false
+					for _, fc := range factsWithSwitch(parents, call) {
+						be, ok := fc.e.(*ast.BinaryExpr)
+						if !ok || types.ExprString(ast.Unparen(be.X)) != argS {
+							continue
+						}
+						if id, ok := ast.Unparen(be.Y).(*ast.Ident); !ok || id.Name != "nil" {
+							continue
+						}
+						if (be.Op == token.NEQ && !fc.neg) || (be.Op == token.EQL && fc.neg) {
+							guard = true
+						}
+					}
+					r.Check(guard, key, call.Pos(), "nil excluded on this path", fmt.Sprintf("reflect.ValueOf(%s) is %s although %s is an interface{} that can be nil (a published function that returns a nil interface{}, a null argument or result on the wire): the zero reflect.Value makes reflect.Call / the function created by reflect.MakeFunc panic instead of passing nil on", argS, sink, argS))
+					return true
+				})
+			}
+		}
+	}
+	if n == 0 {
+		r.Undec("reflect boxing sites", 0, "no reflect.ValueOf(<interface{} value>) feeding a reflect.Value list found in rpc/core")
+	}
+}
